@@ -30,6 +30,39 @@ BYREF2 = [("CheckedAdd", "checked_add"), ("CheckedSub", "checked_sub"), ("Checke
 PRIMINT1 = ["count_ones", "count_zeros", "leading_zeros", "trailing_zeros", "swap_bytes", "leading_ones", "trailing_ones", "reverse_bits"]
 
 
+EXACT = {"add": (lambda W, a, b: a + b, "overflow(add)"), "sub": (lambda W, a, b: a - b, "overflow(sub)"),
+         "mul": (lambda W, a, b: a * b, "overflow(mul)")}
+
+
+def trait_value_rows(K, A, PROP=PROP, stems=None):
+    """G rows for the num-traits operator traits: outcome on boundary operands == the primitive-integer semantics
+    (shared with C01/C02/C03, which claim the same clause for their own operations: `stems` selects them)"""
+    out = []
+    if K.F.lookup(tr(A, NT + "CheckedAdd", [], "checked_add")) is None:
+        return out          # configuration without the numtraits feature
+    c03.W_debug[0] = K.debug
+    rows = [(NT + trn, m) for trn, m in BYREF2] + [(NT + "Saturating", "saturating_add"), (NT + "Saturating", "saturating_sub"),
+                                                    (NT + "CheckedEuclid", "checked_div_euclid"), (NT + "CheckedEuclid", "checked_rem_euclid"),
+                                                    (NT + "Euclid", "div_euclid"), (NT + "Euclid", "rem_euclid")]
+    for trn, m in rows:
+        form, _, op = m.partition("_") if m.split("_")[0] in arith.FORMS else ("plain", "", m)
+        if stems is not None and op not in stems:
+            continue
+        fid = tr(A, trn, [], m)
+        if op in EXACT:
+            fn, cls = EXACT[op]
+            reps = arith.small_reps(A, "TT", arith.form_expect(form, A, fn, cls, K.debug))
+        else:
+            reps = c03.reps_for(A, form, op)
+        out += core.g_row(K, PROP, fid, reps, tag="")
+    if stems is not None and "neg" not in stems:
+        return out
+    neg = lambda W, a: -a
+    out += core.g_row(K, PROP, tr(A, NT + "CheckedNeg", [], "checked_neg"), arith.small_reps(A, "T", arith.form_expect("checked", A, neg, "overflow(neg)", K.debug)))
+    out += core.g_row(K, PROP, tr(A, NT + "WrappingNeg", [], "wrapping_neg"), arith.small_reps(A, "T", arith.form_expect("wrapping", A, neg, "overflow(neg)", K.debug)))
+    return out
+
+
 def obligations(ctx, tier):
     out = []
     aud = audit.default()
@@ -53,6 +86,9 @@ def obligations(ctx, tier):
             out.append(core.f_row(K, PROP, tr(A, NT + "Pow", ["u32"], "pow"), call(inh(A, "pow"), P(0), P(1))))
             for m in ("saturating_add", "saturating_sub"):
                 out.append(core.f_row(K, PROP, tr(A, NT + "Saturating", [], m), call(inh(A, m), P(0), P(1))))
+            # ---- the same impls against the reference semantics on a boundary grid (G): a hand-written body that is no
+            #      longer a forwarder is still decided
+            out += trait_value_rows(K, A)
             out.append(core.f_row(K, PROP, tr(A, NT + "Bounded", [], "min_value"), const(inh(A, "MIN"))))
             out.append(core.f_row(K, PROP, tr(A, NT + "Bounded", [], "max_value"), const(inh(A, "MAX"))))
             out.append(core.f_row(K, PROP, tr(A, NT + "Zero", [], "zero"), const(inh(A, "ZERO"))))
@@ -158,6 +194,21 @@ def obligations(ctx, tier):
                         return ("not", ("val", W.wrap(A, 1))) if kind == "below" else ("val", W.wrap(A, 1))
                     return ("bitlen_%s" % kind, env_fn, exp_fn)
                 out += core.g_row(K, PROP, tr(A, "num_integer::Roots", [], "nth_root"), [nroot("eq"), nroot("below"), nroot("above")])
+            # ---- Roots: degree 0 panics, degree 1 is the identity (also for MIN), even roots of negatives panic
+            def root_deg(W, env, A=A):
+                x, n = env[0].v, env[1].v
+                if n == 0:
+                    return ("panic", "zeroth_root")
+                if n == 1:
+                    return ("val", W.wrap(A, x))
+                if x < 0 and n % 2 == 0:
+                    return ("panic", "imaginary_root")
+                return ("any",)
+            dreps = []
+            for n_, f_ in arith.small_values(A):
+                for deg in (0, 1, 2, 4):
+                    dreps.append(("deg%d_%s" % (deg, n_), (lambda f_=f_, deg=deg, A=A: lambda W: {0: W.wrap(A, f_(W)), 1: PI("u32", deg)})(), root_deg))
+            out += core.g_row(K, PROP, tr(A, "num_integer::Roots", [], "nth_root"), dreps)
             # ---- Roots: no arithmetic-overflow panic
             R_ = "num_integer::Roots"
             allowed = {"zeroth_root", "imaginary_root", "zero_divisor"}
